@@ -1,82 +1,102 @@
 --------------------------- MODULE FailureWatcher ---------------------------
 (***************************************************************************)
 (* C17 (failure fan-in) - services.FailureWatcher (failure_watcher.go)     *)
-(* watching NS services.  WatchService adds a service listener whose       *)
-(* Failed callback SENDS on the watcher's UNBUFFERED channel, so the       *)
-(* listener goroutine of a failed service stays in that send until         *)
-(* somebody receives from Chan().  Close takes the watcher's mutex, calls  *)
-(* the remove function of every listener (which waits for the listener     *)
-(* goroutine to exit - see Service.tla RemoveClose/RemoveDelete/RemoveWait)*)
-(* and only then closes the channel.                                       *)
+(* over NS services, watched either one by one (WatchService: one service  *)
+(* listener and goroutine per service) or through a Manager (WatchManager: *)
+(* ONE manager listener and goroutine, failures queue up in its channel).  *)
+(* The Failed / Failure callback SENDS on the watcher's UNBUFFERED channel,*)
+(* so the listener goroutine stays in that send until somebody receives    *)
+(* from Chan().  Close takes the watcher's mutex, calls the remove         *)
+(* function of every listener in turn (which waits for that listener's     *)
+(* goroutine to exit) and only then closes the channel.                    *)
 (*                                                                         *)
-(* Decided here: every failure is reported at most once, exactly once if   *)
-(* the reader keeps reading and the watcher is not closed first; nothing   *)
-(* is ever sent on the closed channel; Close returns PROVIDED somebody is  *)
-(* still receiving (CloseReturns under ReaderFair).  Without a reader      *)
-(* Close blocks for ever while a failure is pending (MC_fw_noreader.cfg is *)
-(* the witness; harness/c17 TestFailureWatcherCloseNeedsReader replays it  *)
-(* on the real code) - an observation outside the clauses of C17.          *)
+(* As in Service.tla the state is one record `fw` and every step of the    *)
+(* code is an operator on records; FailureWatcherGated.tla composes them   *)
+(* for the replay on the real code.                                        *)
+(*                                                                         *)
+(* Decided here: every failure is reported at most once and only for a     *)
+(* failed service, exactly once if a reader keeps reading and the watcher  *)
+(* is not closed first; nothing is sent on the closed channel; Close       *)
+(* returns PROVIDED somebody is still receiving (CloseReturns under        *)
+(* ReaderFair).  Without a reader Close blocks for ever while a report is  *)
+(* pending: MC_fw_noreader.cfg is the witness and the gated replay expects *)
+(* exactly that (observation blk = "Close-blocked-while-report-pending"),  *)
+(* so that a future change of this behaviour is visible.                   *)
 (***************************************************************************)
 EXTENDS Integers, Sequences, FiniteSets, TLC
 
-CONSTANTS NS, ReaderFair
+CONSTANTS NS,          \* services 1..NS
+          Modes,       \* subset of {"services", "manager"}: how the services are watched
+          ReaderFair   \* BOOLEAN: somebody keeps receiving from Chan() (fairness of Recv)
 
 Svc == 1..NS
+VARIABLE fw
+fvars == <<fw>>
 
-VARIABLES st,       \* st[s]: "ok" | "failed"  (the watched service)
-          lgo,      \* listener goroutine of s: "idle" | "sending" | "exited"
-          pend,     \* pend[s]: a Failed notification is queued for the listener goroutine
-          stopd,    \* stop channel of the listener closed (remove function called)
-          cpc,      \* Close: 0 not called | index of the listener being removed | NS+1 closing the channel | NS+2 returned
-          chClosed, \* the watcher's channel is closed
-          got,      \* got[s]: how often the reader received the failure of s
-          sendOnClosed
-vars == <<st, lgo, pend, stopd, cpc, chClosed, got, sendOnClosed>>
+Slots(f) == IF f.mode = "services" THEN Svc ELSE {1}      \* listener goroutines of the watcher
+SlotOf(f, s) == IF f.mode = "services" THEN s ELSE 1
+CloseDone == NS + 1
 
-Init == /\ st = [s \in Svc |-> "ok"] /\ lgo = [s \in Svc |-> "idle"] /\ pend = [s \in Svc |-> FALSE]
-        /\ stopd = [s \in Svc |-> FALSE] /\ cpc = 0 /\ chClosed = FALSE
-        /\ got = [s \in Svc |-> 0] /\ sendOnClosed = FALSE
+FInitRec(mode) ==
+  [ mode |-> mode, st |-> [s \in Svc |-> "ok"],
+    q |-> [k \in Svc |-> <<>>],          \* failures queued in the listener channel of slot k
+    go |-> [k \in Svc |-> "idle"],       \* listener goroutine: "idle" | "sending" | "exited"
+    cur |-> [k \in Svc |-> 0],           \* the service whose failure slot k is sending
+    reg |-> [k \in Svc |-> TRUE],        \* listener still registered
+    stopd |-> [k \in Svc |-> FALSE],     \* its stop channel is closed
+    sendq |-> <<>>,                      \* slots blocked in w.ch <- err, in the order they arrived (Go serves senders FIFO)
+    cpc |-> 0,                           \* Close: 0 not called | k waiting for slot k to exit | CloseDone returned
+    closed |-> FALSE, chClosed |-> FALSE, got |-> <<>>, sendOnClosed |-> FALSE, panics |-> 0 ]
 
-\* the service fails; its (still registered) listener gets the notification
-Fail(s) == /\ st[s] = "ok" /\ st' = [st EXCEPT ![s] = "failed"]
-           /\ pend' = [pend EXCEPT ![s] = ~stopd[s]]
-           /\ UNCHANGED <<lgo, stopd, cpc, chClosed, got, sendOnClosed>>
-\* the listener goroutine takes the notification and starts w.ch <- err
-StartSend(s) == /\ lgo[s] = "idle" /\ pend[s]
-                /\ lgo' = [lgo EXCEPT ![s] = "sending"] /\ pend' = [pend EXCEPT ![s] = FALSE]
-                /\ sendOnClosed' = (sendOnClosed \/ chClosed)
-                /\ UNCHANGED <<st, stopd, cpc, chClosed, got>>
-\* somebody receives from Chan(): the send completes
-Recv(s) == /\ lgo[s] = "sending" /\ ~chClosed
-           /\ lgo' = [lgo EXCEPT ![s] = "idle"] /\ got' = [got EXCEPT ![s] = @ + 1]
-           /\ UNCHANGED <<st, pend, stopd, cpc, chClosed, sendOnClosed>>
-\* listener goroutine exits: stop closed (or the service is terminal and nothing is queued)
-Exit(s) == /\ lgo[s] = "idle" /\ (stopd[s] \/ (st[s] = "failed" /\ ~pend[s]))
-           /\ lgo' = [lgo EXCEPT ![s] = "exited"]
-           /\ UNCHANGED <<st, pend, stopd, cpc, chClosed, got, sendOnClosed>>
+\* service s fails: its listener (or the manager's) is notified, if still registered
+FailEn(f, s) == f.st[s] = "ok"
+Fail(f, s) == LET k == SlotOf(f, s)
+              IN [f EXCEPT !.st[s] = "failed", !.q[k] = IF f.reg[k] THEN Append(@, s) ELSE @]
+\* the listener goroutine takes a notification and starts w.ch <- err
+StartSendEn(f, k) == k \in Slots(f) /\ f.go[k] = "idle" /\ f.q[k] # <<>>
+StartSend(f, k) == [f EXCEPT !.go[k] = "sending", !.cur[k] = Head(f.q[k]), !.q[k] = Tail(@),
+                             !.sendq = Append(@, k), !.sendOnClosed = @ \/ f.chClosed]
+\* somebody receives from Chan(): the oldest blocked send completes
+RecvEn(f) == f.sendq # <<>> /\ ~f.chClosed
+Recv(f) == LET k == Head(f.sendq)
+           IN [f EXCEPT !.go[k] = "idle", !.got = Append(@, f.cur[k]), !.sendq = Tail(@)]
+\* the listener goroutine exits: stop closed, or its channel was closed (service / manager terminal) and is drained
+ChanClosedBySource(f, k) == IF f.mode = "services" THEN f.st[k] = "failed" ELSE \A s \in Svc : f.st[s] = "failed"
+ExitEn(f, k) == k \in Slots(f) /\ f.go[k] = "idle" /\ (f.stopd[k] \/ (f.q[k] = <<>> /\ ChanClosedBySource(f, k)))
+Exit(f, k) == [f EXCEPT !.go[k] = "exited"]
 
-\* Close(): for each listener stop() = close(stop); remove; wg.Wait()
-CloseCall == /\ cpc = 0 /\ cpc' = 1 /\ stopd' = [stopd EXCEPT ![1] = TRUE]
-             /\ UNCHANGED <<st, lgo, pend, chClosed, got, sendOnClosed>>
-CloseNext == /\ cpc \in Svc /\ lgo[cpc] = "exited"
-             /\ cpc' = cpc + 1
-             /\ stopd' = IF cpc = NS THEN stopd ELSE [stopd EXCEPT ![cpc + 1] = TRUE]
-             /\ UNCHANGED <<st, lgo, pend, chClosed, got, sendOnClosed>>
-CloseChan == /\ cpc = NS + 1 /\ cpc' = NS + 2 /\ chClosed' = TRUE
-             /\ UNCHANGED <<st, lgo, pend, stopd, got, sendOnClosed>>
+\* Close(): w.mu; for each listener stop() = close(stop), unregister, wait for the goroutine; close(w.ch)
+StopSlot(f, k) == [f EXCEPT !.stopd[k] = TRUE, !.reg[k] = FALSE, !.cpc = k]
+CloseCallEn(f) == f.cpc = 0
+CloseCall(f) == StopSlot(f, 1)
+CloseNextEn(f) == f.cpc \in Svc /\ f.go[f.cpc] = "exited"
+CloseNext(f) == IF f.cpc + 1 \in Slots(f) THEN StopSlot(f, f.cpc + 1)
+                ELSE [f EXCEPT !.cpc = CloseDone, !.closed = TRUE, !.chClosed = TRUE]
+\* Close() again: nothing; WatchService on a closed watcher: panic(errFailureWatcherClosed)
+WatchAfterCloseEn(f) == f.closed /\ f.panics = 0
+WatchAfterClose(f) == [f EXCEPT !.panics = @ + 1]
 
-Internal == (\E s \in Svc : StartSend(s) \/ Exit(s)) \/ CloseNext \/ CloseChan
-Reader == \E s \in Svc : Recv(s)
-Next == (\E s \in Svc : Fail(s)) \/ CloseCall \/ Internal \/ Reader
+aFail(s) == FailEn(fw, s) /\ fw' = Fail(fw, s)
+aStartSend(k) == StartSendEn(fw, k) /\ fw' = StartSend(fw, k)
+aRecv == RecvEn(fw) /\ fw' = Recv(fw)
+aExit(k) == ExitEn(fw, k) /\ fw' = Exit(fw, k)
+aCloseCall == CloseCallEn(fw) /\ fw' = CloseCall(fw)
+aCloseNext == CloseNextEn(fw) /\ fw' = CloseNext(fw)
+aWatchAfterClose == WatchAfterCloseEn(fw) /\ fw' = WatchAfterClose(fw)
 
-Spec == Init /\ [][Next]_vars /\ WF_vars(Internal) /\ (IF ReaderFair THEN WF_vars(Reader) ELSE TRUE)
+Internal == (\E k \in Svc : aStartSend(k) \/ aExit(k)) \/ aCloseNext
+Init == \E m \in Modes : fw = FInitRec(m)
+Next == (\E s \in Svc : aFail(s)) \/ aCloseCall \/ aWatchAfterClose \/ Internal \/ aRecv
+Spec == Init /\ [][Next]_fvars /\ WF_fvars(Internal) /\ (IF ReaderFair THEN WF_fvars(aRecv) ELSE TRUE)
 
-TypeOK == /\ \A s \in Svc : st[s] \in {"ok", "failed"} /\ lgo[s] \in {"idle", "sending", "exited"}
-          /\ cpc \in 0..(NS + 2)
-ReportedAtMostOnce == \A s \in Svc : got[s] <= 1 /\ (got[s] = 1 => st[s] = "failed")
-NeverSendOnClosed == ~sendOnClosed /\ (chClosed => \A s \in Svc : lgo[s] = "exited")
+Range(x) == {x[i] : i \in DOMAIN x}
+TypeOK == /\ \A s \in Svc : fw.st[s] \in {"ok", "failed"} /\ fw.go[s] \in {"idle", "sending", "exited"}
+          /\ fw.cpc \in 0..CloseDone
+ReportedAtMostOnce == /\ \A i, j \in DOMAIN fw.got : i # j => fw.got[i] # fw.got[j]
+                      /\ \A s \in Range(fw.got) : fw.st[s] = "failed"
+NeverSendOnClosed == ~fw.sendOnClosed /\ (fw.chClosed => \A k \in Slots(fw) : fw.go[k] = "exited")
 \* with a reader and no Close, every failure is eventually reported
-EveryFailureReported == \A s \in Svc : (st[s] = "failed" /\ cpc = 0) ~> (got[s] = 1 \/ cpc # 0)
+EveryFailureReported == \A s \in Svc : (fw.st[s] = "failed" /\ fw.cpc = 0) ~> (s \in Range(fw.got) \/ fw.cpc # 0)
 \* Close returns - only if somebody keeps receiving
-CloseReturns == (cpc # 0) ~> (cpc = NS + 2)
+CloseReturns == (fw.cpc # 0) ~> (fw.cpc = CloseDone)
 =============================================================================
